@@ -47,6 +47,7 @@ pub fn dn_values() -> Vec<(String, DnSpec)> {
         ),
         ("custom oid".into(), one(Custom(vec![1, 2, 3, 4]), Utf8, "custom")),
         ("custom+CN".into(), DnSpec(vec![(Custom(vec![0, 9, 2342, 19200300, 100, 1, 25]), Ia5, "example".into()), (Cn, Utf8, "cn".into())])),
+        ("custom oid 2.999.x + O".into(), DnSpec(vec![(Custom(vec![2, 999, 1, 77]), Utf8, "joint-iso arc".into()), (O, Utf8, "Org".into())])),
         ("custom oid equal to CN".into(), DnSpec(vec![(Cn, Utf8, "real".into()), (Custom(vec![2, 5, 4, 3]), Utf8, "shadow".into())])),
         ("re-pushed CN".into(), DnSpec(vec![(Cn, Utf8, "first".into()), (O, Utf8, "Org".into()), (Cn, Printable, "second".into())])),
         // texts outside the type's alphabet: not constructible on a correct tree (then skipped); if a
@@ -84,6 +85,7 @@ pub fn san_values() -> Vec<(String, Vec<SanSpec>)> {
         ("empty dns label".into(), vec![SanSpec::Dns("".into())]),
         ("127-char dns".into(), vec![SanSpec::Dns("x".repeat(127))]),
         ("128-char dns".into(), vec![SanSpec::Dns("y".repeat(128))]),
+        ("otherName 2.999.x".into(), vec![SanSpec::Other(vec![2, 999, 5, 1], "joint-iso".into())]),
         ("ipv4-mapped ipv6".into(), vec![SanSpec::Ip(vec![0, 0, 0, 0, 0, 0, 0, 0, 0, 0, 0xff, 0xff, 192, 0, 2, 1])]),
         ("ipv4-compatible ipv6 + ::1 + ::".into(), vec![SanSpec::Ip(vec![0, 0, 0, 0, 0, 0, 0, 0, 0, 0, 0, 0, 192, 0, 2, 1]), SanSpec::Ip(vec![0, 0, 0, 0, 0, 0, 0, 0, 0, 0, 0, 0, 0, 0, 0, 1]), SanSpec::Ip(vec![0; 16])]),
         ("ipv4 0.0.0.0 + 255.255.255.255".into(), vec![SanSpec::Ip(vec![0, 0, 0, 0]), SanSpec::Ip(vec![255, 255, 255, 255])]),
